@@ -1,3 +1,4 @@
+import Sparrow.Proofs.KangRunText
 import Sparrow.Proofs.KangInitRefine
 import Sparrow.Proofs.KangRecvRefine
 import Sparrow.Proofs.KangRefine
@@ -482,3 +483,41 @@ theorem initCell_refines_order0 (g : KangGeom) (thr99 thr11 : ℝ) (src normal s
   Sparrow.initCell_refines_order0 g thr99 thr11 src normal size power n_bins f j t hf hj ht hn he0 hb0
 
 end Sparrow.Props.C19.InitRefine
+
+namespace Sparrow.Props.C19.RunText
+open Sparrow Sparrow.Generated.KangFn
+
+/-- **the regenerated recursion computes the model's order histograms, all orders** -/
+theorem kangText_eq_orderH (g : KangGeom) (d : KangInitData) (others : Nat → List Nat) (f : Nat) (hf : f < d.n_bins)
+    (hn : ∀ j, j < g.P → AxisAligned (Vec3.ofFn (d.normal j)) d.thr99)
+    (he0 : ∀ j, j < g.P → g.e0 j = kangInitPatch (Vec3.ofFn (d.normal j)) (Vec3.ofFn (g.center j)) (Vec3.ofFn (d.size j))
+      (Vec3.ofFn d.src) d.power (g.absorption (g.wall j) f) (g.att (g.wall j) f) d.thr99 d.thr11)
+    (hb0 : ∀ j, j < g.P → g.bin0 j = binKang (Vec3.norm (Vec3.sub (Vec3.ofFn (g.center j)) (Vec3.ofFn d.src))) g.c g.fs)
+    (hnd : ∀ j, j < g.P → (others j).Nodup)
+    (hmem : ∀ j, j < g.P → ∀ w, w ∈ others j ↔ w < g.W ∧ w ≠ g.wall j)
+    (hwall : ∀ i, i < g.P → g.wall i < g.W)
+    (hbins : ∀ i j, i < g.P → j < g.P → g.wall i ≠ g.wall j → binKang (g.dist i j) g.c g.fs ≤ g.S)
+    (k j t : Nat) :
+    kangText g d others f k j t = some (orderH (g.scene f).toEx k j 0 t) :=
+  Sparrow.kangText_eq_orderH g d others f hf hn he0 hb0 hnd hmem hwall hbins k j t
+
+end Sparrow.Props.C19.RunText
+
+namespace Sparrow.Props.C19.NonVacuous2
+open Sparrow
+
+/-- a two-wall, two-patch geometry meeting every hypothesis of `exchangeCell_refines_order` / `kangText_eq_orderH` that concerns the
+    geometry (other-wall list, wall range, every delay inside the histogram) -/
+noncomputable def g0 : KangGeom :=
+  { P := 2, W := 2, S := 3, wall := fun i => i, center := fun _ _ => 0, ff := fun _ _ => 1 / 4,
+    absorption := fun _ _ => 1 / 2, scattering := fun _ _ => 1, att := fun _ _ => 0, c := 1, fs := 1, e0 := fun _ => 1, bin0 := fun _ => 0 }
+
+example : (∀ w, w ∈ [1] ↔ w < g0.W ∧ w ≠ g0.wall 0) ∧ (∀ i, i < g0.P → g0.wall i < g0.W) ∧
+    (∀ i, i < g0.P → g0.wall i ≠ g0.wall 0 → binKang (g0.dist i 0) g0.c g0.fs ≤ g0.S) := by
+  refine ⟨?_, ?_, ?_⟩
+  · intro w; simp [g0]; omega
+  · intro i hi; simpa [g0] using hi
+  · intro i _ _
+    simp [g0, KangGeom.dist, Vec3.norm, Vec3.dot, Vec3.sub, Vec3.ofFn, binKang, ToBin.floorNat]
+
+end Sparrow.Props.C19.NonVacuous2
